@@ -53,6 +53,11 @@ CONSTANTS MaxInst,      \* instances are 1..MaxInst; how many run is chosen in I
           ResetOnSleep, \* TRUE as coded: overdue := 0 before the timer is armed; FALSE keeps the previous token's value (negative control)
           LazyAt,       \* pcs at which a lazy tick may be taken (all of them in the exhaustive configurations; {"cmp"} for
                         \* the descheduling scripts, whose delay the harness can inject between Next() and the clock reading)
+          DrawAdvances, \* TRUE: Next() of the shared schedule hands every token to one caller (C02); FALSE (negative control):
+                        \* two instances calling Next() at the same time get the same token
+          MinWait,      \* scenario pacing (min_waiting_time, ticks; 0 = ordinary gun): a shot that is served faster blocks
+                        \* the instance until MinWait has elapsed since the shot started
+          Pace,         \* "start" as coded (sleep MinWait - spent); negative controls: "none" (no wait), "end" (wait after the end)
           StartDelays,  \* instants at which instances 2.. are started by the startup schedule (instance 1 starts at 0)
           LazyLens,     \* {0} everywhere except script generation: there the length of the descheduling after Next() is
                         \* drawn per token from this set (a restriction of Next that makes long delays frequent in walks)
@@ -104,6 +109,10 @@ RecSandwich(r, mx, mg)    == RecMustDiscard(r, mx, mg) /\ RecMustFire(r, mx, mg)
 
 \* the strong reading (valid only when the goroutine is not descheduled between pickup and decision)
 RecIff(r, mx) == (r.b - r.tok >= mx) <=> (r.d = "discard")
+
+\* scenario pacing: the next shot of an instance starts no sooner than mw after the previous one started
+\* (r.pf: start of the previous shot of the same instance, -1 if none)
+RecPaced(r, mw) == r.d = "fire" /\ r.pf >= 0 => r.b - r.pf >= mw
 
 \* configuration default (cli.readConfig): key absent => on
 DiscardDefault(key) == IF key = "absent" THEN TRUE ELSE key = "true"
@@ -174,7 +183,7 @@ NextTok(i) ==
     /\ IF k < NTok
        THEN /\ tok' = [tok EXCEPT ![i] = nextTok]
             /\ tokk' = [tokk EXCEPT ![i] = k + 1]
-            /\ k' = k + 1
+            /\ k' = IF DrawAdvances \/ ~\E j \in Insts : j # i /\ pc[j] = "next" THEN k + 1 ELSE k
             /\ lastTok' = nextTok
             /\ IF k + 1 < NTok THEN \E g \in Gaps : nextTok' = nextTok + g ELSE nextTok' = nextTok
             /\ tnext' = [tnext EXCEPT ![i] = now]
@@ -227,7 +236,13 @@ Wake(i) ==
 IsSlowDown(i) == overdue[i] >= Thresh
 RobustHere(i) == Guard = 0 \/ now - tok[i] <= MAX - Guard \/ now - tok[i] >= MAX + Guard
 
-Rec(i, d, r) == [k |-> tokk[i], tok |-> tok[i], a |-> tnext[i], b |-> now, d |-> d, r |-> r, i |-> i, lz |-> lz[i]]
+\* start of the previous shot of instance i (-1: none yet), carried through discards
+PrevFire(i) == IF last[i].d = "none" THEN -1 ELSE IF last[i].d = "fire" THEN last[i].b ELSE last[i].pf
+Rec(i, d, r) == [k |-> tokk[i], tok |-> tok[i], a |-> tnext[i], b |-> now, d |-> d, r |-> r, i |-> i, lz |-> lz[i],
+                 pf |-> PrevFire(i)]
+\* how long Gun.Shoot blocks the instance: the scenario gun sleeps until MinWait has elapsed since the shot started
+ShotTime(r) == IF Pace = "start" THEN (IF r >= MinWait THEN r ELSE MinWait)
+               ELSE IF Pace = "end" THEN r + MinWait ELSE r
 
 \* if !i.discardOverflow || !waiter.IsSlowDown(ctx) { gun.Shoot } else { aggregator.Report(Discarded) }
 Decide(i) ==
@@ -235,7 +250,7 @@ Decide(i) ==
     /\ RobustHere(i)
     /\ IF ~disc \/ ~IsSlowDown(i)
        THEN \E r \in Resp :
-              /\ deadline' = [deadline EXCEPT ![i] = now + r]
+              /\ deadline' = [deadline EXCEPT ![i] = now + ShotTime(r)]
               /\ pc' = [pc EXCEPT ![i] = "shooting"]
               /\ last' = [last EXCEPT ![i] = Rec(i, "fire", r)]
               /\ hist' = IF Record THEN Append(hist, Rec(i, "fire", r)) ELSE hist
@@ -287,11 +302,29 @@ NeverDiscardOff == ~disc => ndisc = 0
 Conservation == AllDone => nfired + ndisc = NTok /\ k = NTok
 AllFiredOff  == AllDone /\ ~disc => nfired = NTok
 
+\* several instances on one schedule: every token handed out is held by exactly one instance until that instance
+\* decides it - once, fire or discard - so nothing is lost or decided twice while one instance works off a backlog
+\* of discards and another one fires on time
+Holding(i) == pc[i] \in {"cmp", "arm", "sleep", "decide"}
+HeldDistinct == \A i, j \in Insts : i # j /\ Holding(i) /\ Holding(j) => tokk[i] # tokk[j]
+TokenAccounting == nfired + ndisc + Cardinality({i \in Insts : Holding(i)}) = k
+\* reachability witness (must be VIOLATED): one instance has just discarded an overdue token while another one
+\* fired its token exactly on time and is still shooting
+NoBacklogNextToOnTime == ~ \E i, j \in Insts : /\ i # j /\ last[i].d = "discard" /\ pc[j] = "shooting"
+                                                /\ last[j].d = "fire" /\ last[j].b = last[j].tok /\ last[i].b > last[j].b
+
 \* a fired request is fired less than MAX (+ what the scheduler stole) after its instant
 FireBound == disc => \A i \in Decided : last[i].d = "fire" => last[i].b - last[i].tok < MAX + slack
 \* so the run is bounded by the profile, the window and the response time
-RunBound == disc /\ AllDone => now <= lastTok + MAX + MaxResp + slack
-RunBoundTight == disc /\ AllDone /\ NTok > 0 => now < lastTok + MAX + MaxResp + slack
+MaxShot == IF MaxResp >= MinWait THEN MaxResp ELSE MinWait
+RunBound == disc /\ AllDone => now <= lastTok + MAX + MaxShot + slack
+RunBoundTight == disc /\ AllDone /\ NTok > 0 => now < lastTok + MAX + MaxShot + slack
+
+\* pacing: consecutive shots of an instance start at least MinWait apart, and a shot blocks the instance for
+\* exactly max(response, MinWait) - no longer (the wait is measured from the START of the shot)
+Paced == \A i \in Decided : RecPaced(last[i], MinWait)
+ShotLength == \A i \in Insts : pc[i] = "shooting" =>
+                  deadline[i] - last[i].b = (IF last[i].r >= MinWait THEN last[i].r ELSE MinWait)
 
 \* the clock bound of the model never cuts an unfinished run in the exhaustive configurations
 HorizonEnough == now = Horizon => AllDone
